@@ -345,3 +345,47 @@ def has_all(node, srcs):
 
 def has_any(node, srcs):
     return any(has(node, s) for s in srcs)
+
+
+def inline_single_defs(expr, fd, depth=2):
+    """copy of expr in which every local that fd assigns exactly once (plain `name = <expression without side effects>`) is replaced
+    by that expression: `n = len(fields); if n != self.header_len` is matched like `if len(fields) != self.header_len`"""
+    defs = {}
+    for n in walk_no_nested(fd):
+        if isinstance(n, ast.Assign) and len(n.targets) == 1 and isinstance(n.targets[0], ast.Name):
+            defs.setdefault(n.targets[0].id, []).append(n.value)
+        elif isinstance(n, (ast.AugAssign, ast.For, ast.NamedExpr)):
+            t = n.target
+            for x in ast.walk(t):
+                if isinstance(x, ast.Name):
+                    defs.setdefault(x.id, []).extend([None, None])
+    params = {a.arg for a in fd.args.args} if isinstance(fd, (ast.FunctionDef, ast.AsyncFunctionDef)) else set()
+
+    def pure(v):
+        return v is not None and all(not isinstance(x, (ast.Call, ast.Await, ast.Yield)) or (isinstance(x, ast.Call) and isinstance(x.func, ast.Name) and x.func.id in ('len', 'str', 'int', 'float')) for x in ast.walk(v))
+
+    class T(ast.NodeTransformer):
+        def __init__(self, d):
+            self.d = d
+
+        def visit_Name(self, node):
+            if isinstance(node.ctx, ast.Load) and node.id not in params and len(defs.get(node.id, [])) == 1 and pure(defs[node.id][0]) and self.d > 0:
+                return T(self.d - 1).visit(_fcopy(defs[node.id][0]))
+            return node
+    return T(depth).visit(_fcopy(expr))
+
+
+def _fcopy(n):
+    """copy of the syntax fields only (the IR's parent links would drag the whole module along)"""
+    if isinstance(n, list):
+        return [_fcopy(x) for x in n]
+    if not isinstance(n, ast.AST):
+        return n
+    new = type(n)()
+    for f in n._fields:
+        if hasattr(n, f):
+            setattr(new, f, _fcopy(getattr(n, f)))
+    for a in ('lineno', 'col_offset', 'end_lineno', 'end_col_offset'):
+        if hasattr(n, a):
+            setattr(new, a, getattr(n, a))
+    return new
